@@ -794,7 +794,11 @@ def worker(args) -> Dict[str, Any]:
             driver._wipe_cache()
 
         for index, s in enumerate(mine):
-            if chk.elapsed() > budget:
+            # soft budget; on a crowded machine go on (up to three times the budget) until
+            # this worker has contributed its share of the minimum observations
+            done = chk.counters.get("scenarios_accepted", 0)
+            own_minimum = 3 if chk.budget is None else 0
+            if chk.elapsed() > budget and (done >= own_minimum or chk.elapsed() > 3 * budget):
                 chk.count("scenarios_skipped_for_budget", len(mine) - index)
                 break
             try:
